@@ -182,7 +182,40 @@ func genC05(g GenCtx) interface{} {
 
 // ---------------------------------------------------------------- C06
 
+// sameRefilters: equal-filter Refilter calls (joins issue them all the time)
+// sprinkled into a script, also right behind writes whose events are in flight.
+func sameRefilters(rng *rand.Rand, sc *Tree, share int) {
+	var filtered []int
+	id := 0
+	var out []TAct
+	for _, a := range sc.Acts {
+		if a.Op == "refilter" && rng.Intn(share) == 0 {
+			a.Same = true
+		}
+		out = append(out, a)
+		if a.Op == "mknode" {
+			switch a.Kind {
+			case "subf", "subff", "clonef", "cloneff":
+				filtered = append(filtered, id)
+			}
+			id++
+		}
+		if (a.Op == "apply" || a.Op == "delete") && len(filtered) > 0 && rng.Intn(share) == 0 {
+			out = append(out, TAct{Op: "refilter", Node: filtered[rng.Intn(len(filtered))], Same: true, Async: rng.Intn(2) == 0})
+		}
+	}
+	sc.Acts = out
+}
+
 func genC06(g GenCtx) interface{} {
+	sc := genC06base(g).(*Tree)
+	if g.Idx%4 == 2 {
+		sameRefilters(g.Rng, sc, 4)
+	}
+	return sc
+}
+
+func genC06base(g GenCtx) interface{} {
 	sc, rng := baseTree(g)
 	sc.PeriodMs = pickInt(rng, 0, 0, 50, 200, 1000)
 	sc.Bufsiz = pickInt(rng, 100, 100, 100, 8)
@@ -439,6 +472,17 @@ func genC11(g GenCtx) interface{} {
 		}
 		sc.Sim.MaxSteps = 400000
 	}
+	if !sc.HoldFirstList && rng.Intn(8) == 0 {
+		// a filtered subscription whose consumer does not read is refiltered so
+		// that more objects leave its view than its buffer has room for - and is
+		// shut down, from any level, in that state
+		sc.Bufsiz, sc.NoOverflow = pickInt(rng, 2, 3, 4), false
+		for k := 0; k < 6; k++ {
+			sc.Init = append(sc.Init, world.Spec{NS: "flood", Name: string(rune('a' + k)), Labels: randLabels(rng)})
+		}
+		id := b.add(b.randParent(rng, 3), "subf", TAct{Filter: world.FilterSpec{}, Reader: "stalled"})
+		sc.Acts = append(sc.Acts, TAct{Op: "settle"}, TAct{Op: "refilter", Node: id, Filter: world.FilterSpec{Op: "all"}, Async: true})
+	}
 	deaf := !sc.HoldFirstList && rng.Intn(12) == 0
 	if deaf {
 		// the client ignores its context: one List call (the first or a relist)
@@ -599,7 +643,7 @@ func genC12(g GenCtx) interface{} {
 
 // ---------------------------------------------------------------- C14
 
-var listFailKinds = []string{"error", "error-typed-nil", "error-with-list", "error-with-full-list", "error-timeout", "error-canceled", "error-canceled-bare", "error-deadline-bare", "error-notrunning", "error-notrunning-wrapped", "error-nilcause", "error-nilcause-with-list", "nonlist", "nonobjects", "noitems", "status-object", "unstructured-object", "nil"}
+var listFailKinds = []string{"error", "error-typed-nil", "error-with-list", "error-with-full-list", "error-timeout", "error-canceled", "error-canceled-bare", "error-deadline-bare", "error-notrunning", "error-notrunning-wrapped", "error-nilcause", "error-nilcause-with-list", "error-aggregate", "nonlist", "nonobjects", "noitems", "status-object", "unstructured-object", "nil"}
 
 func genC14(g GenCtx) interface{} {
 	sc, rng := baseTree(g)
